@@ -1,20 +1,44 @@
-"""Scenario families per tier and property.  Level letters (harness/src/bin/explore.rs):
-d delete output, b bump an Always job, n remove/add job, e remove/add dependency (edits before the
-evaluation); f<k> every failure set up to k jobs; a abort at every point (both variants);
-m every illegal call in every state; p<k> k extra declaration orders; k flaky Ephemerals."""
+"""Scenario families per tier and property.
+
+explore levels (harness/src/bin/explore.rs), one group per evaluation of a chain, '/' separated:
+d delete an output, b bump an Always job, n remove/add a job, e remove/add a dependency,
+r a multi-output job gains/loses an output (edits before the evaluation); f<k> every failure set
+up to k jobs; a abort at every point (both variants); m every illegal call in every state;
+p<k> k extra declaration orders; k flaky Ephemerals; - nothing.
+
+A family is (name, binary, args, properties it serves, exhaustive over its stated space,
+properties whose clauses are evaluated on it when it serves property P: None = {P}).
+"""
 
 ALLP = {"C%02d" % i for i in range(1, 21)}
+TRACEP = ALLP - {"C19"}
 
-# name, explorer args, properties served, exhaustive over its stated space
+# clauses evaluated on the complete traces of the small instances of the size families: a
+# violation of any of them there is size-dependent behaviour
+BIGPROPS = {"C01", "C02", "C03", "C04", "C05", "C06", "C11", "C12", "C13", "C17", "C19"}
+
 QUICK = [
-    ("n3", ["exh", "n=3", "levels=f1am/dbnef1a"], ALLP - {"C15", "C16", "C19"}, True),
-    ("n3uses", ["exh", "n=3", "uses=none", "levels=f1/dbne"], {"C01", "C03", "C04", "C11", "C12"}, True),
-    ("n3stamp", ["exh", "n=3", "cmp=both", "levels=f1a/dbf1a/-"], {"C15", "C04", "C09", "C12"}, True),
-    ("n3flaky", ["exh", "n=3", "cmp=both", "levels=-/bdk/-"], {"C16", "C06"}, True),
-    ("n3decl", ["exh", "n=3", "levels=p5/dbnep5"], {"C14"}, True),
+    ("n3", "explore", ["exh", "n=3", "levels=f1am/dbnef1a"], TRACEP - {"C15", "C16"}, True, None),
+    ("n3uses", "explore", ["exh", "n=3", "uses=none", "levels=f1/dbne"], {"C01", "C03", "C04", "C11", "C12"}, True, None),
+    ("n3stamp", "explore", ["exh", "n=3", "cmp=both", "levels=f1a/dbf1a/-"], {"C15", "C04", "C09", "C12"}, True, None),
+    ("n3flaky", "explore", ["exh", "n=3", "cmp=both", "levels=-/bdk/-"], {"C16", "C06"}, True, None),
+    ("n3decl", "explore", ["exh", "n=3", "levels=p5/dbnep5"], {"C14"}, True, None),
+    ("eph5", "explore", ["exh", "n=5", "filter=eph5", "stride=23", "levels=-/db", "steps=0"], {"C02", "C01", "C04", "C05"}, False, None),
+    ("big", "big", ["sizes=12,24,48,120,1200", "full=12"], {"C19"}, False, BIGPROPS),
 ]
 
-THOROUGH = QUICK + [
+THOROUGH = [
+    ("n3", "explore", ["exh", "n=3", "levels=f2am/dbnerf1a/dbf1", "double=1"], TRACEP - {"C15", "C16"}, True, None),
+    ("n3uses", "explore", ["exh", "n=3", "uses=mix", "levels=f1/dbne/db"], {"C01", "C03", "C04", "C11", "C12"}, True, None),
+    ("n3stamp", "explore", ["exh", "n=3", "cmp=both", "levels=f1a/dbnef1a/db"], {"C15", "C04", "C09", "C12"}, True, None),
+    ("n3flaky", "explore", ["exh", "n=3", "cmp=both", "levels=-/bdkf1/k"], {"C16", "C06"}, True, None),
+    ("n3decl", "explore", ["exh", "n=3", "levels=p9/dbnep9"], {"C14"}, True, None),
+    ("n4", "explore", ["exh", "n=4", "levels=f1a/dbf1", "steps=0", "maxstates=4000"], TRACEP - {"C15", "C16", "C20"}, True, None),
+    ("n4stamp", "explore", ["exh", "n=4", "cmp=both", "stride=5", "levels=f1/dbf1/-", "steps=0"], {"C15", "C16"}, False, None),
+    ("n4flaky", "explore", ["exh", "n=4", "cmp=both", "stride=5", "levels=-/bdk/-", "steps=0"], {"C16"}, False, None),
+    ("eph5", "explore", ["exh", "n=5", "filter=eph5", "stride=3", "levels=-/db", "steps=0"], {"C02", "C01", "C03", "C04", "C05", "C13", "C14"}, False, None),
+    ("rnd6", "explore", ["random", "n=6", "count=300", "levels=f1/dbnef1/db", "steps=0", "maxstates=3000"], TRACEP - {"C15", "C16", "C20"}, False, None),
+    ("big", "big", ["sizes=12,24,48,120,1200,12000", "full=48"], {"C19"}, False, BIGPROPS),
 ]
 
 
@@ -23,8 +47,5 @@ def table(tier):
 
 
 def for_property(prop, tier):
-    return [(n, a) for (n, a, ps, ex) in table(tier) if prop in ps]
-
-
-def meta(prop, tier):
-    return [{"name": n, "exhaustive": ex} for (n, a, ps, ex) in table(tier) if prop in ps]
+    return [{"name": n, "binary": b, "args": a, "exhaustive": ex, "eval": (ev or {prop})}
+            for (n, b, a, ps, ex, ev) in table(tier) if prop in ps]
